@@ -170,16 +170,54 @@ structure Eff where
   category : Nat
   deriving Repr, DecidableEq
 
+/-- the skip reason `Add` works with: NUL content makes an unclassified document binary -/
+def effSkip (d : Doc) : Nat := if d.category = 0 ∧ d.content.contains 0 then skipBinary else d.skip
+
+/-- `DetermineFileCategory` for an unclassified document (go-enry's verdict is `catHint`) -/
+def effCategory (d : Doc) : Nat :=
+  if d.category = 0 then (if effSkip d = skipBinary then catBinary else d.catHint) else d.category
+
+/-- `DetermineLanguageIfUnknown` (go-enry's verdict is `langHint`) -/
+def effLanguage (d : Doc) : Bytes := if d.language.isEmpty then d.langHint else d.language
+
 /-- the first part of `ShardBuilder.Add`: binary check, skip marker, language, symbol sort -/
 def effective (d : Doc) : Eff :=
-  let skip := if d.category = 0 ∧ d.content.contains 0 then skipBinary else d.skip
-  let category := if d.category = 0 then (if skip = skipBinary then catBinary else d.catHint) else d.category
-  let language := if d.language.isEmpty then d.langHint else d.language
-  if skip ≠ 0 then ⟨notIndexedMarker ++ explanation skip, [], [], language, category⟩
+  if effSkip d ≠ 0 then ⟨notIndexedMarker ++ explanation (effSkip d), [], [], effLanguage d, effCategory d⟩
   else if d.symMeta.length = d.symbols.length then
-    let z := sortSymbols d.symbols d.symMeta
-    ⟨d.content, z.map (·.1), z.map (·.2), language, category⟩
-  else ⟨d.content, d.symbols, d.symMeta, language, category⟩
+    ⟨d.content, (sortSymbols d.symbols d.symMeta).map (·.1), (sortSymbols d.symbols d.symMeta).map (·.2), effLanguage d, effCategory d⟩
+  else ⟨d.content, d.symbols, d.symMeta, effLanguage d, effCategory d⟩
+
+/-- the values `Add` has computed when it starts appending to the builder's tables -/
+structure AddVals where
+  cpb : PB
+  npb : PB
+  runeSecs : List (Nat × Nat)
+  subIdx : Nat
+  mask : Nat
+  cat : Nat
+  deriving Repr
+
+/-- language code of `lang` in the table (existing position, or the next free one) -/
+def langCode (tab : List Bytes) (lang : Bytes) : Nat := (intern tab lang).2
+
+/-- the appends at the end of `ShardBuilder.Add` -/
+def SB.commit (b0 : SB) (d : Doc) (e : Eff) (v : AddVals) : SB :=
+  let b := addSymbols b0 e.symMeta
+  { b with
+    contents := b.contents ++ [e.content]
+    names := b.names ++ [d.name]
+    docSections := b.docSections ++ [e.symbols]
+    runeDocSections := b.runeDocSections ++ v.runeSecs
+    fileEndSymbol := b.fileEndSymbol ++ [b.runeDocSections.length + v.runeSecs.length]
+    checksums := b.checksums ++ be 8 (crc64 e.content).toNat
+    branchMasks := b.branchMasks ++ [v.mask]
+    subRepos := b.subRepos ++ [v.subIdx]
+    contentPB := v.cpb
+    namePB := v.npb
+    languageMap := (intern b.languageMap e.language).1
+    languages := b.languages ++ [UInt8.ofNat (langCode b.languageMap e.language % 256),
+                                 UInt8.ofNat (langCode b.languageMap e.language / 256)]
+    categories := b.categories ++ [UInt8.ofNat v.cat] }
 
 /-- `ShardBuilder.Add` for the (single or last) repository `repo` -/
 def SB.add (repo : Repo) (b : SB) (d : Doc) : Outcome SB :=
@@ -194,32 +232,16 @@ def SB.add (repo : Repo) (b : SB) (d : Doc) : Outcome SB :=
   match b.namePB.add d.name [] with
   | .err x => .err x | .panic x => .panic x | .diverge => .diverge
   | .ok (npb, _) =>
-  let b := addSymbols b e.symMeta
   match indexOf? (subRepoPaths repo) d.subRepoPath with
   | none => .err "unknown subrepo path"
   | some subIdx =>
   match branchMaskOf repo.branches d.branches with
   | none => .err "no branch found"
   | some mask =>
-  let (lm, code) := intern b.languageMap e.language
-  if b.languageMap.length ≥ 65535 ∧ lm.length ≠ b.languageMap.length then .err "too many languages" else
+  if b.languageMap.length ≥ 65535 ∧ indexOf? b.languageMap e.language = none then .err "too many languages" else
   match encodeCategory e.category with
   | none => .err "category"
-  | some cat =>
-  .ok { b with
-    contents := b.contents ++ [e.content]
-    names := b.names ++ [d.name]
-    docSections := b.docSections ++ [e.symbols]
-    runeDocSections := b.runeDocSections ++ runeSecs
-    fileEndSymbol := b.fileEndSymbol ++ [b.runeDocSections.length + runeSecs.length]
-    checksums := b.checksums ++ be 8 (crc64 e.content).toNat
-    branchMasks := b.branchMasks ++ [mask]
-    subRepos := b.subRepos ++ [subIdx]
-    contentPB := cpb
-    namePB := npb
-    languageMap := lm
-    languages := b.languages ++ [UInt8.ofNat (code % 256), UInt8.ofNat (code / 256)]
-    categories := b.categories ++ [UInt8.ofNat cat] }
+  | some cat => .ok (b.commit d e ⟨cpb, npb, runeSecs, subIdx, mask, cat⟩)
 
 def SB.addAll (repo : Repo) : SB → List Doc → Outcome SB
   | b, [] => .ok b
